@@ -34,6 +34,17 @@ def propfind_body(props=None, allprop=False):
     return f'<?xml version="1.0" encoding="utf-8"?><D:propfind {NSDECL}>{inner}</D:propfind>'.encode()
 
 
+def proppatch_body_ordered(instr):
+    """instr: [("set", clark, text) | ("remove", clark)] in document order."""
+    parts = []
+    for it in instr:
+        if it[0] == "set":
+            parts.append(f"<D:set><D:prop><{qn(it[1])}>{xesc(it[2])}</{qn(it[1])}></D:prop></D:set>")
+        else:
+            parts.append(f"<D:remove><D:prop><{qn(it[1])}/></D:prop></D:remove>")
+    return (f'<?xml version="1.0" encoding="utf-8"?><D:propertyupdate {NSDECL}>' + "".join(parts) + "</D:propertyupdate>").encode()
+
+
 def proppatch_body(sets=(), removes=()):
     """sets: list of (clark, text or raw-xml tuple ('xml', str)); removes: list of clark."""
     parts = []
